@@ -179,8 +179,14 @@ def makeUmemo (t : List Nat) (n1 twoU : Int) : Nat :=
 
 def hasTies (T : List Nat) : Bool := T.any (· > 1)
 
-/-- `UDist{n1,n2,T}.CDF(U)` with twoU = 2·U. `tied` chooses the evaluator of the tied table. -/
-def cdfWith (tied : List Nat → Int → Int → Nat) (n1 n2 : Nat) (T : List Nat) (twoU : Int) : Rat :=
+/-- `d.p(U)[u]` through the recurrence itself: Go swaps so that N ≤ M and tabulates p_{N,M} -/
+def pUntiedRec (n1 n2 : Nat) (u : Nat) : Rat :=
+  if n1 > n2 then pRec n2 n1 (u : Nat) else pRec n1 n2 (u : Nat)
+
+/-- `UDist{n1,n2,T}.CDF(U)` with twoU = 2·U. `tied` chooses the evaluator of the tied table,
+    `untied` the evaluator of `d.p(U)[u]`. -/
+def cdfWith (tied : List Nat → Int → Int → Nat) (untied : Nat → Nat → Nat → Rat)
+    (n1 n2 : Nat) (T : List Nat) (twoU : Int) : Rat :=
   if twoU < 0 then 0
   else if twoU ≥ 2 * (n1 * n2 : Nat) then 1
   else if hasTies T then
@@ -190,24 +196,25 @@ def cdfWith (tied : List Nat → Int → Int → Nat) (n1 n2 : Nat) (T : List Na
     let ui : Nat := (twoU / 2).toNat           -- int(math.Floor(U))
     let flip := decide (ui ≥ (n1 * n2 + 1) / 2)
     let ui := if flip then n1 * n2 - ui - 1 else ui
-    let cnt := untiedCounts n1 n2
-    let c := (List.range (ui + 1)).foldl (fun acc u => acc + cnt.getD u 0) 0
-    let p : Rat := ((c : Nat) : Rat) / ((choose (n1 + n2) n1 : Nat) : Rat)
+    let p := (List.range (ui + 1)).foldl (fun acc u => acc + untied n1 n2 u) (0 : Rat)
     if flip then 1 - p else p
 
 /-- `UDist{n1,n2,T}.PMF(U)` with twoU = 2·U -/
-def pmfWith (tied : List Nat → Int → Int → Nat) (n1 n2 : Nat) (T : List Nat) (twoU : Int) : Rat :=
+def pmfWith (tied : List Nat → Int → Int → Nat) (untied : Nat → Nat → Nat → Rat)
+    (n1 n2 : Nat) (T : List Nat) (twoU : Int) : Rat :=
   if twoU < 0 ∨ twoU ≥ 1 + 2 * (n1 * n2 : Nat) then 0
   else if hasTies T then
     (((((tied T n1 twoU : Nat) : Int) - ((tied T n1 (twoU - 1) : Nat) : Int) : Int)) : Rat)
       / ((choose (n1 + n2) n1 : Nat) : Rat)
   else
-    pUntied n1 n2 (twoU / 2).toNat
+    untied n1 n2 (twoU / 2).toNat
 
-def cdf := cdfWith makeUmemo
-def pmf := pmfWith makeUmemo
-/-- the same wrappers over the pure recurrence (what the theorems talk about) -/
-def cdfPure := cdfWith (fun T n1 twoU => A T T.length n1 twoU)
-def pmfPure := pmfWith (fun T n1 twoU => A T T.length n1 twoU)
+/-- evaluators used by the compiled driver: memo table and count table -/
+def cdf := cdfWith makeUmemo pUntied
+def pmf := pmfWith makeUmemo pUntied
+/-- the same wrappers over the pure recurrences `A` and `pRec` (what the theorems talk about; the
+    driver checks `cdf = cdfPure`, `pmf = pmfPure` on every small distribution case) -/
+def cdfPure := cdfWith (fun T n1 twoU => A T T.length n1 twoU) pUntiedRec
+def pmfPure := pmfWith (fun T n1 twoU => A T T.length n1 twoU) pUntiedRec
 
 end Stats.UDist
